@@ -14,7 +14,7 @@ RULE = ("N=1: all 576 ordered pairs and all 13824 triples of the 24 maps; N=2: a
 ASSUMPTIONS = ["operands are valid maps; composition a.compose(b) means 'a first, then b'",
                "oracle composition = images of a's rows under b by table products; inverse by GF(2) inverse + phase solve"]
 REQUIRED_SUBS = ["assoc", "seq_vs_compose", "neutral.l", "neutral.r", "inv.l", "inv.r", "inv.antihom", "vs_oracle.compose",
-                 "vs_oracle.inverse", "immutable", "fresh", "z2inv"]
+                 "vs_oracle.inverse", "immutable", "fresh", "z2inv", "history.inverse", "history.compose"]
 
 
 def shards(tier):
@@ -117,6 +117,49 @@ def single_laws(rec, B, a, rng):
         rec.check("inv.r", _eq(B, R[0], ig, ip), case, nt, expected=_show(ig, ip), observed=_show(*B.gsps(R[0])))
         rec.check("inv.l", _eq(B, R[1], ig, ip), case, nt, expected=_show(ig, ip), observed=_show(*B.gsps(R[1])))
         rec.check("inv.involution", _eq(B, R[2], ag, ap), case, nt)
+    # histories on ONE live object: inverse / compose, then the map is changed in place into another valid map
+    # (rotation, transformation, embedding, sign write), then inverse / compose again - no stale state may survive
+    Hm = B.Map(ag.copy(), ap.copy())
+    cur = (ag.copy(), ap.copy())
+    for step in range(3):
+        ok, _ = rec.attempt("history.inverse", case, lambda: (Hm.inverse(), Hm.compose(Hm)))
+        if not ok:
+            break
+        how = int(rng.integers(4))
+        if how == 0:
+            G, PG = gen.rand_nonid(rng, N), 2 * int(rng.integers(2))
+            Hm.rotate_by(B.Pauli(G, PG))
+            cur = O.rot_image(G, PG, cur[0], cur[1])
+        elif how == 1:
+            m2 = O.random_map(rng, N)
+            Hm.transform_by(B.Map(m2[0].copy(), m2[1].copy()))
+            cur = O.map_image_list(m2[0], m2[1], cur[0], cur[1])
+        elif how == 2:
+            k = int(rng.integers(2 * N))
+            newp = np.array(cur[1]).copy()
+            newp[k] = (newp[k] + 2) % 4
+            Hm.ps[k] = (Hm.ps[k] + 2) % 4
+            cur = (cur[0], newp)
+        else:
+            qs = gen.rand_subset(rng, N, int(rng.integers(1, N + 1)))
+            sm = O.random_map(rng, len(qs))
+            mk = np.zeros(N, dtype=bool)
+            mk[qs] = True
+            # embedding a small map over an identity block only: start from the identity to stay valid
+            Hm = B.stabilizer.identity_map(N)
+            Hm.inverse()
+            Hm.embed(B.Map(sm[0].copy(), sm[1].copy()), mk if B.name == "np" else B.torch.tensor(mk))
+            cur = O.map_embed(sm[0], sm[1], qs, N)
+        if not O.map_valid(np.asarray(cur[0]), np.asarray(cur[1]) % 4):
+            rec.inconclusive("history produced an invalid map in the oracle")
+            break
+        ok, R = rec.attempt("history.inverse", case, lambda: (Hm.inverse(), Hm.compose(Hm.inverse()), Hm.compose(Hm)))
+        if ok:
+            xg, xp = O.map_inverse(cur[0], cur[1])
+            sq = O.map_compose(cur[0], cur[1], cur[0], cur[1])
+            hc = dict(case, step=step, how=["rotate_by", "transform_by", "sign write", "embed"][how], now=_show(cur[0], np.asarray(cur[1]) % 4))
+            rec.check("history.inverse", _eq(B, R[0], xg, xp) and _eq(B, R[1], ig, ip), hc, True, expected=_show(xg, xp), observed=_show(*B.gsps(R[0])))
+            rec.check("history.compose", _eq(B, R[2], sq[0], sq[1]), hc, True, expected=_show(*sq), observed=_show(*B.gsps(R[2])))
     # action: inverse undoes the map on operators
     gs = gen.rand_list(rng, 5, N)
     ps = rng.integers(0, 4, 5)
